@@ -9,6 +9,7 @@ from oracle import models as M
 
 ID = "C10"
 TITLE = "call / call-exact: a sample's column is the same whether it is analysed alone, with other samples, or in another order (self-composition); assemble: other samples only turn '.' into named alleles; a pool is processed as the concatenation of its members' reads"
+TECHNIQUE = "self-composition by symbolic execution: two runs under one path condition differing only in the other samples' data; equality of the target sample's outputs discharged by z3"
 ENCODED = ["mchap.application.call_exact.program.call_sample_genotypes", "mchap.application.call.program.call_sample_genotypes",
            "mchap.application.assemble.program.call_sample_genotypes", "mchap.assemble.haplotype_calling.call_posterior_haplotypes",
            "mchap.application.assemble._genotype_as_alleles", "mchap.application.arguments.parse_sample_pools", "mchap.application.baseclass.program.encode_sample_reads"]
